@@ -70,7 +70,7 @@ def year_task(arg):
     def lifter_for(name):
         for req in (('1040',), ('1040', 'nc_d-400'), (name.split('.', 1)[0],)):
             if req not in lifters:
-                lifters[req] = retmodel.Lifter(year, K, S, list(req))
+                lifters[req] = retmodel.Lifter(year, K, S, list(req), timeout_ms=30000)
             if name in lifters[req].rm.summ:
                 return req, lifters[req]
         return None, None
@@ -90,11 +90,15 @@ def year_task(arg):
 
         sel = lf.rm.sel.get((name, k))
         r, inputs, m = lf.query([sel if sel is not None else tm.FALSE, lf.rm.only_abnormal(name)])
+        if r == 'unsat' and sel is not None:
+            # another crash site may share the condition: allow it, the replay
+            # tells which candidate line actually crashes first
+            r, inputs, m = lf.query([sel])
         dt = time.time() - t1
         res['obligations'].append((oname, r, dt, 'exists inputs: real solve(%s) reaches %s path %d (%s: %s)' % (list(req), name, k, kind, det[:80])))
         if r == 'sat':
             rep = {'kind': 'solve', 'year': year, 'forms': list(req), 'inputs': inputs,
-                   'expect': {'kind': 'exception', 'type': CRASH_TYPES, 'line': name}}
+                   'expect': {'kind': 'exception', 'type': CRASH_TYPES, 'line': None, 'lines': sorted(set(c[0] for c in cands))}}
             res['viol'].append({'key': 'ty%d:%s:%s' % (year, name, kind), 'line': name, 'what': '%s -> %s' % (kind, det[:160]), 'replay': rep, 'gkey': gkey})
             seen.add(gkey)
     res['wall'] = time.time() - t0
@@ -109,8 +113,8 @@ def run(tier):
     c.outside = ['names built from copy indices >= %d (e.g. w-2:%d)' % (K, K), 'paths infeasible for every input (solver-decided) are skipped', 'content of free-text strings']
     c.stubs = ['figure_tax -> uninterpreted FT(status,x) in [0,0.37x] (C07 verifies the real one)', 'InputStore -> every catalogued input present with a symbolic value of its type']
     c.assumptions = ['oracle/absent_forms.json lists the deliberately absent forms', 'a crash is only reported after the real Solver reproduced it on solver-generated inputs']
-    for y in (2021, 2022, 2023):
-        retmodel.load_summaries(y, K, {'S': S, 'ft': 'uf', 'cents': True})      # parallel inside; cached by source hash
+    retmodel.preload([(y, K, {'S': S, 'ft': 'uf', 'cents': True}) for y in (2021, 2022, 2023)])   # one pool for all years; cached by source hash
+    os.environ['HV_PRELOADED'] = '1' 
     results = common.pmap(year_task, [(y, K, S) for y in (2021, 2022, 2023)])
     for r in results:
         c.paths += r['paths']
@@ -124,7 +128,10 @@ def run(tier):
             out = common.run_real(['solve'], v['replay'])
             c.replays_run += 1
             if out.get('reproduced'):
-                c.violation(v['key'], '%s [real solve: %s]' % (v['what'], out.get('detail')), v['replay'])
+                crash_line = ((out.get('result') or {}).get('exception') or {}).get('crash_line') or v['line']
+                kinds = {cn: ck for cn, ck, _ in r['cands']}
+                key = v['key'] if crash_line == v['line'] else 'ty%d:%s:%s' % (r['year'], crash_line, kinds.get(crash_line, 'crash'))
+                c.violation(key, '%s [real solve: %s]' % (v['what'], out.get('detail')), v['replay'])
             else:
                 c.spurious += 1
                 c.notes.append('candidate not reproduced: %s (%s)' % (v['key'], out.get('detail')))
